@@ -148,6 +148,21 @@ def _module(ctx, cfg):
         ctx.holds("module/sizes are the module's, not the num_visible argument" + t, s.num_visible == arch[0] and s.num_hidden == arch[1]
                   and (kind != "mixed" or s.num_aux == arch[2]))
         if kind != "positive":
+            # the phase network is a copy of the module AS HANDED OVER: what happens to the module (or to the amplitude
+            # network) afterwards - before anything has looked at the phase network - does not reach it
+            mod2 = PurificationRBM(*arch, gpu=False) if kind == "mixed" else BinaryRBM(arch[0], arch[1], gpu=False)
+            for p in mod2.parameters():
+                p.data = torch.randn_like(p)
+            handed = {n: p.detach().clone() for n, p in mod2.named_parameters()}
+            with warnings.catch_warnings():
+                warnings.simplefilter("ignore")
+                s2 = _cls(kind)(99, module=mod2, gpu=gpu)
+            with torch.no_grad():
+                for p in mod2.parameters():
+                    p.mul_(3.0).add_(1.0)
+            s2.rbm_am.initialize_parameters()
+            ctx.holds("module/phase network holds the values the module had when it was handed over (module changed right after construction)" + t,
+                      all(torch.equal(p.detach(), handed[n]) for n, p in s2.rbm_ph.named_parameters()))
             ph = s.rbm_ph
             ctx.holds("module/phase network is a different object of the same class and sizes" + t, ph is not mod and type(ph) is type(mod)
                       and {n: tuple(p.shape) for n, p in ph.named_parameters()} == {n: tuple(p.shape) for n, p in mod.named_parameters()})
